@@ -312,6 +312,28 @@ def gen(rng, tier):
         t0 = ro.choice([1.0, 1.0, 0.9, 3.0, 10 ** ro.uniform(-1, 2)])
         ops.append(make_op(ro.choice(METHODS), ro.choice(INTERPS), gen_maxit(ro), gen_c12(ro), gen_params(ro), t0,
                            f"fn {fid} {dims} {ro.choice([1, 10, 100])}", x0, direction))
+    # small budgets x large c1 x first trials far from the minimiser, on exact 1-D quadratics phi(t) = f0 + g0 t + h t^2/2 given as
+    # `herm` functions (the success exits reached when the budget runs out right after an extrapolation / inside a zoom: seeded
+    # changes C07-e1, C07-e3) and on n-D quadratics with 1/2 <= c1 < 1 and the full budget (seeded change C07-e2)
+    rq = rng.fork()
+    for _ in range(count // 8):
+        g0 = -(10 ** rq.uniform(-1, 1)); h = 10 ** rq.uniform(-1, 1); f0 = rq.uniform(-1, 1)
+        tstar = -g0 / h
+        t0 = tstar * rq.choice([0.02, 0.05, 0.1, 0.25, 0.5, 0.9, 2.0, 5.0, 20.0, 100.0])
+        c1 = rq.choice([0.55, 0.6, 0.7, 0.8, 0.9, 0.95, 1e-4, 0.1, 0.3])
+        c2 = c1 + (1 - c1) * rq.uniform(0.05, 0.9)
+        maxit = rq.choice([1, 2, 3, 4, 5, 6, 8, 128])
+        f1 = f0 + g0 + h / 2; g1 = g0 + h
+        fspec = "herm %s %s %s" % (f2h(h), f2h(h), lst([0.0, f0, g0, 1.0, f1, g1], f2h))
+        ops.append(make_op(rq.choice(METHODS), rq.choice(INTERPS), maxit, (c1, c2), DEFAULTS, t0, fspec, [0.0], "explicit " + lst([1.0], f2h)))
+    for _ in range(count // 16):
+        n = rq.choice([1, 2, 3, 5, 8])
+        fspec = f"quad {n} {rq.below(1 << 40)} {f2h(10 ** rq.uniform(0, 3))} {f2h(10 ** rq.uniform(-2, 2))}"
+        c1 = rq.choice([0.5, 0.55, 0.6, 0.75, 0.9, 0.99, 0.999])
+        c2 = c1 + (1 - c1) * rq.uniform(0.05, 0.9)
+        radius = 10 ** rq.uniform(-1, 2)
+        ops.append(make_op(rq.choice(METHODS), rq.choice(INTERPS), 128, (c1, c2), DEFAULTS, 10 ** rq.uniform(-3, 3), fspec,
+                           [rq.uniform(-radius, radius) for _ in range(n)], rq.choice(["neggrad", "neggrad", f"qn {rq.below(1 << 40)}"])))
     # user-supplied 1-D line functions (from a forked stream, appended: the ops above are the same as before this family existed)
     rh = rng.fork()
     for _ in range(count // 12):
@@ -381,10 +403,18 @@ class Res:
         self.dnorm = t.f(); self.xnorm = t.f()
 
 
-def tolerance_class(c1, c2):
-    """input class of a (c1, c2) pair, part of the classify key of the 'succeeds on convex quadratics' clause"""
+def tolerance_class(c1, c2, method=None):
+    """input class of a (c1, c2) pair, part of the classify key of the 'succeeds on convex quadratics' clause.
+    `c1>=0.5` (a known-finding class) is given to CG_DESCENT for every c1 >= 1/2 (the secant step lands on the exact minimiser,
+    where Armijo with c1 > 1/2 and approximate Wolfe - which needs c1 < 1/2 - both fail) but to the four other searches only at
+    the very end of the domain, c1 >= 1 - 1e-6, where the Armijo interval (0, 2(1-c1)t*] is below what the iteration budget /
+    floating point can reach; for 1/2 <= c1 < 1 - 1e-6 they do succeed on the unchanged tree (they shrink past the minimiser:
+    backtrack_succeeds_on_quadratic & co. give explicit budgets), so a failure there is a violation of its own class
+    (seeded change C07-e2: backtracking clamped to [safeguard t, t] re-evaluates the minimiser for ever)"""
     if c1 >= 0.5:
-        return "c1>=0.5"          # Armijo with c1 >= 1/2 excludes the exact minimiser of a quadratic along the line
+        if method in (None, "cgdescent") or c1 >= 1.0 - 1e-6:
+            return "c1>=0.5"
+        return "0.5<=c1<1-1e-6"
     if c2 <= 1e-6:
         return "c2<=1e-6"         # (strong) Wolfe demands the slope reduced by more than six orders of magnitude
     return "regular"
@@ -464,7 +494,7 @@ def oracle(aug, res):
         # steps outside it (0, negative, 1e-300, 2.3e-15, 1e300: clamped to stpmin() or 1) are generated for the other clauses only
         t0_in_range = op.t0 != op.t0 or abs(op.t0) == float("inf") or 1e-3 <= op.t0 <= 1e3
         if r.cq and op.maxit >= BUDGET_FOR_SUCCESS_CLAUSE and op.default_params() and t0_in_range:
-            return (f"[{m}-fails-on-convex-quadratic/{tolerance_class(op.c1, op.c2)}] failure on a convex quadratic along a "
+            return (f"[{m}-fails-on-convex-quadratic/{tolerance_class(op.c1, op.c2, m)}] failure on a convex quadratic along a "
                     f"descent direction (max_iterations={op.maxit}, t0={op.t0!r}, c1={op.c1!r}, c2={op.c2!r}, {r.n} evaluations, "
                     f"returned t={r.t!r})")
         return None
